@@ -1071,12 +1071,15 @@ class slice(Stream):
         self._check_end()
 
     def update(self, x, who=None, metadata=None):
-        if (self.state >= self.star and (self.state - self.star) % self.step == 0
-                and not (self.end is not None and self.state >= self.end)):
+        # count the element before passing it on: an element that comes back
+        # in through a feedback edge during the emission is the next one
+        state = self.state
+        self.state += 1
+        if (state >= self.star and (state - self.star) % self.step == 0
+                and not (self.end is not None and state >= self.end)):
             result = self._emit(x, metadata=metadata)
         else:
             result = None
-        self.state += 1
         self._check_end()
         return result
 
